@@ -76,7 +76,9 @@ def run(tier, cases=None, only_engines=None):
     # or interpreter that do not change the result are invisible to the comparison above)
     done_idx = sorted(obs)
     sub = done_idx if tier == "thorough" else done_idx[:: max(1, len(done_idx) // 48)]
-    aeng = ["interp", "gen0", "gen1", "gen2", "gen3"] if tier == "thorough" else ["gen0", "gen2"]
+    # not the interpreter: its BEND restores the C stack pointer behind ASan's back (bend_builtin), so a later C alloca
+    # lands on still-poisoned alloca redzones and ASan reports a dynamic-stack-buffer-overflow that is not one
+    aeng = ["gen0", "gen1", "gen2", "gen3"] if tier == "thorough" else ["gen0", "gen2"]
     aobs, _ = progs.run_cases([cases[i] for i in sub], aeng, variant="asan")
     nasan = 0
     for k, per in sorted(aobs.items()):
